@@ -14,7 +14,7 @@ BUILTINS = {'len', 'int', 'str', 'bool', 'min', 'max', 'sum', 'abs', 'list', 'tu
 SPEC_BUILTINS = {'forall', 'exists', 'implies', 'iff', 'old', 'ite', 'seq_get', 'subset', 'setof', 'distinct', 'is_prefix',
                  'is_none', 'some', 'emptyset', 'set_add', 'set_remove', 'seq_take', 'seq_drop', 'index_of', 'card',
                  'str_len', 'str_at', 'str_contains', 'str_indexof', 'str_prefixof', 'str_suffixof', 'str_sub',
-                 'str_replace_first', 'domain', 'map_get', 'unchanged', 'map_same_except', 'heap_same', 'heap_same_except', 'map_same', 'okey', 'opos', 'oval', 'osame', 'oprefix', 'in_re', 'int_to_str', 'str_to_int', 'str_lt', 'str_le'}
+                 'str_replace_first', 'domain', 'map_get', 'unchanged', 'map_same_except', 'heap_same', 'heap_same_except', 'map_same', 'okey', 'opos', 'oval', 'osame', 'oprefix', 'fun_set', 'in_re', 'int_to_str', 'str_to_int', 'str_lt', 'str_le'}
 
 def _len_term(ex, v):
     ty = v.ty
@@ -137,7 +137,7 @@ def call_builtin(ex, name, args, kwargs, node):
     if name in ('typing.cast', 'cast'): return args[1]
     if name == 'pickle.loads':
         # may fail with an arbitrary exception; otherwise the uninterpreted inverse of dumps
-        if not ex.spec and ex.choose(2) == 1: ex.raise_exc('Exception')
+        if not ex.spec and ex.choose(2) == 1: ex.raise_exc('PickleError')     # some Exception subclass; named so that it cannot mask others
         return call_spec(ex, 'unpk', [ex.val(args[0])], {}, node)
     if name == 'pickle.dumps':
         return call_spec(ex, 'pk', [ex.val(args[0])], {}, node)
@@ -264,7 +264,7 @@ def _fold_sum(ex, it, start, node):
             if k >= ex.vf.unroll_bound:
                 ex.vf.note_bounded('sum() fold unrolled to depth %d' % ex.vf.unroll_bound); raise E.PathEnd()
             acc = add(acc, it.get(z3.IntVal(k))); k += 1
-    base = '%s/sum%d' % (ex.vf.cur.qual, ordn)
+    base = '%s/sum%d' % (ex.vf.cur.oname, ordn)
     accn, idxn = lc.get('acc', 'acc'), lc.get('index', 'i')
     saved = {k: ex.st.env.get(k) for k in (accn, idxn)}
     ex.st.env[accn] = start; ex.st.env[idxn] = vint(0)
@@ -293,7 +293,7 @@ def _fold_sum(ex, it, start, node):
 
 def _set_of_seq(ex, a):
     ety = a.ty.elem
-    mem = fresh('setof', z3.ArraySort(sort_of(ety), z3.BoolSort())); card = fresh('card', z3.IntSort())
+    mem = fresh('setof', z3.ArraySort(sort_of(ety), z3.BoolSort())); card = T.card_fn(mem)
     i = fresh('qi', z3.IntSort()); x = fresh('qx', sort_of(ety)); j = fresh('qj', z3.IntSort())
     ex.assume(z3.ForAll([i], z3.Implies(z3.And(i >= 0, i < a.t[0]), z3.Select(mem, a.t[1][i]))))
     ex.assume(z3.ForAll([x], z3.Implies(z3.Select(mem, x), z3.Exists([j], z3.And(j >= 0, j < a.t[0], a.t[1][j] == x)))))
@@ -419,14 +419,18 @@ def _set_method(ex, bm, recv, name, args, kwargs):
     ety = recv.ty.elem; mem, card = recv.t
     if name == 'add':
         x = pack(coerce(args[0], ety))
-        ex.assign(bm.recv_node, V(recv.ty, (z3.Store(mem, x, True), card + z3.If(z3.Select(mem, x), 0, 1)))); return NONE
+        m2, c2, fct = T.set_update(mem, card, x, True); ex.assume(fct)
+        ex.assign(bm.recv_node, V(recv.ty, (m2, c2))); return NONE
     if name in ('remove', 'discard'):
         x = pack(coerce(args[0], ety))
         if name == 'remove' and ex.branch(z3.Not(z3.Select(mem, x)), exceptional=True): ex.raise_exc('KeyError')
-        ex.assign(bm.recv_node, V(recv.ty, (z3.Store(mem, x, False), card - z3.If(z3.Select(mem, x), 1, 0)))); return NONE
+        m2, c2, fct = T.set_update(mem, card, x, False); ex.assume(fct)
+        ex.assign(bm.recv_node, V(recv.ty, (m2, c2))); return NONE
     if name == 'copy': return recv
     if name == 'clear':
-        ex.assign(bm.recv_node, V(recv.ty, (empty_set_term(ety), z3.IntVal(0)))); return NONE
+        e0 = coerce(V(TTuple([]), []), recv.ty)
+        for fct in T.type_facts(e0): ex.assume(fct)
+        ex.assign(bm.recv_node, e0); return NONE
     if name in ('union', 'intersection', 'difference'):
         other = args[0]
         if not isinstance(other.ty, TSet): other = _set_of_seq(ex, coerce(other, TSeq(ety)))
@@ -469,13 +473,16 @@ def _omap_method(ex, bm, recv, name, args, kwargs):
 
 def setitem(ex, recv, k, v):
     ty = recv.ty
+    if isinstance(ty, TFun):
+        return V(ty, z3.Store(recv.t, pack(ex.co(k, ty.k)), pack(ex.co(v, ty.v))))
     if isinstance(ty, TOMap):
         kt = pack(ex.co(k, ty.k)); n, ks, pos, val = recv.t
         mem = T.omap_member(recv, kt)
         return V(ty, (n + z3.If(mem, 0, 1), z3.If(mem, ks, z3.Store(ks, n, kt)), z3.If(mem, pos, z3.Store(pos, kt, n)), z3.Store(val, kt, pack(ex.co(v, ty.v)))))
     if isinstance(ty, TMap):
         kt = pack(coerce(k, ty.k)); dom, val, card = recv.t
-        return V(ty, (z3.Store(dom, kt, True), z3.Store(val, kt, pack(coerce(v, ty.v))), card + z3.If(z3.Select(dom, kt), 0, 1)))
+        d2, c2, fct = T.set_update(dom, card, kt, True); ex.assume(fct)
+        return V(ty, (d2, z3.Store(val, kt, pack(coerce(v, ty.v))), c2))
     if isinstance(ty, TSeq):
         i = coerce(k, TInt).t; ln = recv.t[0]
         if ex.branch(z3.Or(i >= ln, i < -ln), exceptional=True): ex.raise_exc('IndexError')
@@ -491,7 +498,8 @@ def map_del(ex, recv, k, strict):
     if not isinstance(ty, TMap): raise Unsupported('del on %r' % ty)
     kt = pack(coerce(k, ty.k)); dom, val, card = recv.t
     if strict and ex.branch(z3.Not(z3.Select(dom, kt)), exceptional=True): ex.raise_exc('KeyError')
-    return V(ty, (z3.Store(dom, kt, False), val, card - z3.If(z3.Select(dom, kt), 1, 0)))
+    d2, c2, fct = T.set_update(dom, card, kt, False); ex.assume(fct)
+    return V(ty, (d2, val, c2))
 
 def _map_method(ex, bm, recv, name, args, kwargs):
     ty = recv.ty; dom, val, card = recv.t
@@ -510,7 +518,8 @@ def _map_method(ex, bm, recv, name, args, kwargs):
     if name == 'setdefault':
         kt = pack(coerce(args[0], ty.k))
         r = vite(z3.Select(dom, kt), unpack(z3.Select(val, kt), ty.v), coerce(args[1], ty.v))
-        nv = V(ty, (z3.Store(dom, kt, True), z3.Store(val, kt, pack(coerce(r, ty.v))), card + z3.If(z3.Select(dom, kt), 0, 1)))
+        d2, c2, fct = T.set_update(dom, card, kt, True); ex.assume(fct)
+        nv = V(ty, (d2, z3.Store(val, kt, pack(coerce(r, ty.v))), c2))
         ex.assign(bm.recv_node, nv); return r
     if name == 'copy': return recv
     if name == 'set' :   # immutables.Map.set -> new map
@@ -518,7 +527,7 @@ def _map_method(ex, bm, recv, name, args, kwargs):
     if name == 'delete':
         return map_del(ex, recv, args[0], strict=True)
     if name in ('keys', 'values', 'items'):
-        return ex.vf.map_iter(ex, recv, name)
+        return E.MapIterV(recv, name)
     raise Unsupported('dict.%s' % name)
 
 # ------------------------------------------------------------------ spec functions
@@ -562,10 +571,12 @@ def call_spec(ex, name, args, kwargs, node):
     if name == 'card': return vint(a[0].t[1] if isinstance(a[0].ty, TSet) else a[0].t[2])
     if name == 'set_add':
         s, x = a; xt = pack(coerce(x, s.ty.elem))
-        return V(s.ty, (z3.Store(s.t[0], xt, True), s.t[1] + z3.If(z3.Select(s.t[0], xt), 0, 1)))
+        m2, c2, fct = T.set_update(s.t[0], s.t[1], xt, True); ex.assume(fct)
+        return V(s.ty, (m2, c2))
     if name == 'set_remove':
         s, x = a; xt = pack(coerce(x, s.ty.elem))
-        return V(s.ty, (z3.Store(s.t[0], xt, False), s.t[1] - z3.If(z3.Select(s.t[0], xt), 1, 0)))
+        m2, c2, fct = T.set_update(s.t[0], s.t[1], xt, False); ex.assume(fct)
+        return V(s.ty, (m2, c2))
     if name == 'seq_take':
         s, n = a; return V(s.ty, (coerce(n, TInt).t, s.t[1]))
     if name == 'distinct':
@@ -589,6 +600,9 @@ def call_spec(ex, name, args, kwargs, node):
         m, k = a; return unpack(z3.Select(m.t[1], pack(coerce(k, m.ty.k))), m.ty.v)
     if name == 'seq_get':
         return seq_get(a[0], coerce(a[1], TInt).t)
+    if name == 'fun_set':
+        f, k, v = a
+        return V(f.ty, z3.Store(f.t, pack(ex.co(k, f.ty.k)), pack(ex.co(v, f.ty.v))))
     # ---- ordered maps
     if name == 'okey': return unpack(z3.Select(a[0].t[1], coerce(a[1], TInt).t), a[0].ty.k)
     if name == 'opos': return vint(z3.Select(a[0].t[2], pack(ex.co(a[1], a[0].ty.k))))
@@ -616,7 +630,9 @@ def call_spec(ex, name, args, kwargs, node):
     if name == 'emptyset':
         ty = a[0].ty if isinstance(a[0], E.TypeObj) else None
         if ty is None: raise Unsupported('emptyset(Type)')
-        return V(TSet(ty), (empty_set_term(ty), z3.IntVal(0)))
+        e0 = coerce(V(TTuple([]), []), TSet(ty))
+        for fct in T.type_facts(e0): ex.assume(fct)
+        return e0
     raise Unsupported('spec function %s' % name)
 
 def _quant(ex, name, a):
@@ -629,7 +645,7 @@ def _quant(ex, name, a):
         ex.st.env = dict(lam.env); ex.st.env.update(saved); ex.st.env.update(bind)
         try: return truth(ex.val(ex.eval(lam.node.body)))
         finally: ex.st.env = saved
-    if len(a) == 3:
+    if len(a) == 3 and not isinstance(a[0], E.TypeObj):
         lo, hi = coerce(a[0], TInt).t, coerce(a[1], TInt).t
         i = fresh(params[0], z3.IntSort())
         b = body({params[0]: vint(i)}); rng = z3.And(i >= lo, i < hi)
